@@ -619,7 +619,7 @@ int driver_main(int argc, char** argv, Engine& e)
       Plan p = gen(idx);
       printf("begin %llu %s\n", (unsigned long long)idx, p.get("seed").c_str()); fflush(stdout);
       g_cur_index = (sig_atomic_t)idx;
-      alarm(25);
+      alarm(60);
       Outcome o = execute_here(e, p, false);
       alarm(0);
       for (auto& s : o.st.states) total.states[s.first].insert(s.second.begin(), s.second.end());
